@@ -10,7 +10,7 @@ from ._water import scenario_facts
 
 PID = "C13"
 LEVEL = "model_checking"
-WITNESSES = ["off_season_day", "stage_after_delayed_germination", "irrigated_day", "threshold_exceeded_day", "threshold_stage_2", "threshold_stage_3", "threshold_stage_4",
+WITNESSES = ["off_season_day", "depletion_estimate_checked", "stage_after_delayed_germination", "irrigated_day", "threshold_exceeded_day", "threshold_stage_2", "threshold_stage_3", "threshold_stage_4",
              "interval_day", "scheduled_application", "scheduled_date_outside_season", "schedule_capped_by_daily_max",
              "net_irrigation_day", "seasonal_cap_binding", "daily_max_binding"]
 NONTRIVIAL = [w for w in WITNESSES if w != "off_season_day"]
